@@ -10,8 +10,8 @@ Import ListNotations.
 Open Scope Z_scope.
 
 (* one observation: which runtime (0 = original, k > 0 = a copy), which
-   observation program (0 = generic; 201, 203 = the pinned witnesses of finding
-   classes 3 and 2), the text it returned there, and the text it returned on
+   observation program (0 = generic; 201 = the pinned witness of finding class 3;
+   203 = the regression witness of the repaired eval finding), the text it returned there, and the text it returned on
    that runtime's replica (a fresh runtime that replayed the same scripts) *)
 Definition obs := (Z * Z * list Z * list Z)%type.
 
@@ -28,29 +28,25 @@ Inductive case :=
            (phi : list (Z * Z)) (rt' : runtime).
 
 (* ---- black box ---- *)
-Definition f_argparam := 101.   (* a live closure of a function with a parameter named `arguments` *)
-Definition f_evalgone := 102.   (* global `eval` deleted or bound to a non-object *)
-Definition f_evalswap := 103.   (* global `eval` bound to another function at the time of Copy() *)
+(* feature codes 101 (a live closure of a function with a parameter named `arguments`), 102
+   (global `eval` deleted or bound to a non-object) and 103 (global `eval` bound to another
+   function at the time of Copy()) were the witnesses of findings repaired by 4582d68 and
+   1f3ee72: they are ordinary features now and expect an equivalent, independent copy. *)
 Definition f_caller   := 104.   (* functions that inspect f.caller *)
 
 Definition str_false : list Z := [102; 97; 108; 115; 101].
-Definition str_global : list Z := [103; 108; 111; 98; 97; 108].
 
-Definition model_copy_ok (hist : list Z) : bool :=
-  negb (mem f_argparam hist || mem f_evalgone hist).
+Definition model_copy_ok (hist : list Z) : bool := true.
 
 Definition model_obs (hist : list Z) (o : obs) : list Z :=
   match o with
   | (side, q, _, repl) =>
       if (0 <? side) && (q =? 201) && mem f_caller hist then str_false
-      else if (0 <? side) && (q =? 203) && mem f_evalswap hist then str_global
       else repl
   end.
 
 Definition black_class (hist : list Z) : Z :=
-  if mem f_argparam hist then 1
-  else if mem f_evalgone hist || mem f_evalswap hist then 2
-  else if mem f_caller hist then 3 else 0.
+  if mem f_caller hist then 3 else 0.
 
 Definition real_of (o : obs) : list Z := snd (fst o).
 Definition repl_of (o : obs) : list Z := snd o.
@@ -78,9 +74,9 @@ Fixpoint maxkey {A} (m : list (Z * A)) (acc : Z) : Z :=
 (* run the model cloner on the dumped original and check that what it builds is
    isomorphic to the real copy: the renaming model-copy -> real-copy is the
    composition of the model's memo table (inverted) with the candidate phi *)
-Definition model_matches (bad : cell -> bool) (h h' : heap) (phi : list (Z * Z)) (roots : list Z) : option bool :=
+Definition model_matches (h h' : heap) (phi : list (Z * Z)) (roots : list Z) : option bool :=
   let n0 := Z.max (maxkey h 0) (maxkey h' 0) + 1 in
-  match clone_roots bad h (S (length h)) roots n0 with
+  match clone_roots h (S (length h)) roots n0 with
   | Ok s =>
       let psi := map (fun e => (snd e, app_memo phi (fst e))) (memo s) in
       Some (nodupb (keys psi) && nodupb (vals psi) && forallb (check_entry (out s) h' psi) psi
@@ -90,7 +86,7 @@ Definition model_matches (bad : cell -> bool) (h h' : heap) (phi : list (Z * Z))
   end.
 
 Definition dump_verdict (hook : bool) (h h' : heap) (phi : list (Z * Z)) (roots : list Z) : Z * Z :=
-  match model_matches no_bad h h' phi roots with
+  match model_matches h h' phi roots with
   | None => declined
   | Some m =>
       let covered := forallb (fun r => mem r (keys phi)) roots in
@@ -101,40 +97,28 @@ Definition dump_verdict (hook : bool) (h h' : heap) (phi : list (Z * Z)) (roots 
 Definition rt_eqb (a b : runtime) : bool :=
   (rt_global a =? rt_global b) && zlist_eqb (rt_fields a) (rt_fields b) && (rt_eval a =? rt_eval b).
 
-Definition rename_rt (f : Z -> Z) (rt : runtime) : runtime :=
-  mkRt (f (rt_global rt)) (map f (rt_fields rt)) (f (rt_eval rt)).
-
 (* observable outcome of Copy(): None = panic; Some b = returned, and b says
    whether the result is the isomorphic image of the original, runtime record included *)
 Definition runtime_verdict (eval_name : Z) (h : heap) (rt : runtime) (copy_ok : bool)
            (h' : heap) (phi : list (Z * Z)) (rt' : runtime) : Z * Z :=
   let n0 := Z.max (maxkey h 0) (maxkey h' 0) + 1 in
   let fuel := S (length h) in
-  let roots := rt_global rt :: rt_fields rt in
+  let roots := rt_global rt :: rt_fields rt ++ [rt_eval rt] in
   let impl : option bool :=
     if copy_ok then
       Some (check_iso h h' phi && forallb (fun r => mem r (keys phi)) roots
             && rt_eqb rt' (rename_rt (app_memo phi) rt))
     else None in
-  let spec : option bool :=
-    match clone_runtime_spec h fuel rt n0 with
-    | ROk _ _ _ => Some true
-    | _ => None
-    end in
-  match clone_runtime_otto eval_name h fuel rt n0 with
+  let spec : option bool := Some true in
+  match clone_runtime h fuel rt n0 with
   | RFuel => declined
-  | RPanic =>
-      let cls := if forallb (fun lc => negb (otto_bad (snd lc))) h then 2 else 1 in
-      judge (option_eqb Bool.eqb) impl None spec cls
+  | RPanic => judge (option_eqb Bool.eqb) impl None spec 0
   | ROk hm mm rtm =>
-      (* the model's copy against the real one, and the model's runtime record
-         (with otto's way of finding eval) against the real record *)
+      (* the model's copy and runtime record against the real ones *)
       let psi := map (fun e => (snd e, app_memo phi (fst e))) mm in
       let same := nodupb (keys psi) && nodupb (vals psi) && forallb (check_entry hm h' psi) psi
                   && rt_eqb rt' (rename_rt (app_memo psi) rtm) in
-      let evalok := rt_eval rtm =? app_memo mm (rt_eval rt) in
-      if copy_ok && same then judge (option_eqb Bool.eqb) impl (Some evalok) spec 2
-      else judge (option_eqb Bool.eqb) impl (Some false) spec 0
+      judge (option_eqb Bool.eqb) impl (Some (copy_ok && same)) spec 0
   end.
 
 Definition verdict (c : case) : Z * Z :=
